@@ -149,7 +149,16 @@ class Gen:
             return self.int_lit()
         if r < 0.88:
             c = self.expr(scope, "B", depth + 1)
-            return f"if {c} {{ {self.expr(scope, 'I', depth + 1)} }} else {{ {self.expr(scope, 'I', depth + 1)} }}"
+            # a branch may end in an assignment (its value is the assigned value) or hold statements before its value
+            def branch():
+                vs = self.vars_of(scope, "I", assignable=True)
+                r2 = self.rng.random()
+                if vs and r2 < 0.2:
+                    return f"{self.pick(vs)} = {self.expr(scope, 'I', depth + 1)}"
+                if vs and r2 < 0.3:
+                    return f"{self.pick(vs)} = {self.expr(scope, 'I', depth + 1)}; {self.expr(scope, 'I', depth + 1)}"
+                return self.expr(scope, 'I', depth + 1)
+            return f"if {c} {{ {branch()} }} else {{ {branch()} }}"
         if r < 0.94:
             return self.match_expr(scope, depth + 1)
         ms = self.vars_of(scope, "M")
@@ -175,7 +184,11 @@ class Gen:
             if pat in used:
                 continue
             used.add(pat)
-            arms.append(f"{pat} => {self.expr(scope, 'I', depth + 2)}")
+            vs = self.vars_of(scope, "I", assignable=True)
+            if vs and self.chance(0.15):
+                arms.append(f"{pat} => {{ {self.pick(vs)} = {self.expr(scope, 'I', depth + 2)} }}")
+            else:
+                arms.append(f"{pat} => {self.expr(scope, 'I', depth + 2)}")
         if self.chance(0.6):
             arms.append(f"_ => {self.expr(scope, 'I', depth + 2)}")
         return f"match {scrut} {{ {', '.join(arms)} }}"
